@@ -26,18 +26,20 @@ pub enum Place {
     Index(Box<Place>, String, Ty, String),
     /// value of a map entry: base (the map), key term, value type, panic site
     MapEntry(Box<Place>, String, Ty, String),
+    /// field of an enum struct-variant reached through a `&mut` binding: base, Lean enum name, variant, field, type, site
+    VariantField(Box<Place>, String, String, String, Ty, String),
 }
 
 impl Place {
     pub fn root(&self) -> String {
         match self {
             Place::Var(n, _) => n.clone(),
-            Place::Field(b, _, _) | Place::Index(b, _, _, _) | Place::MapEntry(b, _, _, _) => b.root(),
+            Place::Field(b, _, _) | Place::Index(b, _, _, _) | Place::MapEntry(b, _, _, _) | Place::VariantField(b, _, _, _, _, _) => b.root(),
         }
     }
     pub fn ty(&self) -> Ty {
         match self {
-            Place::Var(_, t) | Place::Field(_, _, t) | Place::Index(_, _, t, _) | Place::MapEntry(_, _, t, _) => t.clone(),
+            Place::Var(_, t) | Place::Field(_, _, t) | Place::Index(_, _, t, _) | Place::MapEntry(_, _, t, _) | Place::VariantField(_, _, _, _, t, _) => t.clone(),
         }
     }
 }
@@ -64,7 +66,10 @@ pub struct Cx<'g> {
     /// `let x = &mut place;` aliases: variable -> place (every use re-reads / writes the place)
     aliases: Vec<Vec<(String, Place)>>,
     /// enclosing `while` loops: the tuple of loop-carried variables of each
-    loop_stack: Vec<Vec<String>>,
+    loop_stack: Vec<(Option<String>, Vec<String>)>,
+    /// pattern bindings that are references into a `&mut` place but are translated as values: assignment is rejected
+    ro: Vec<Vec<String>>,
+    pending_ro: Vec<String>,
     /// fuel expressions (manifest) of the `while` loops of this fn, consumed in source order
     pub fuels: Vec<String>,
     fuel_next: usize,
@@ -102,6 +107,8 @@ impl<'g> Cx<'g> {
             mut_params: Vec::new(),
             aliases: vec![Vec::new()],
             loop_stack: Vec::new(),
+            ro: vec![Vec::new()],
+            pending_ro: Vec::new(),
             fuels: Vec::new(),
             fuel_next: 0,
             array_len_hint: None,
@@ -172,6 +179,38 @@ impl<'g> Cx<'g> {
             }
             if sc.iter().any(|(n, _)| n == name) {
                 return None;
+            }
+        }
+        None
+    }
+
+    /// is the innermost declaration of `name` a by-value translation of a reference binding?
+    fn is_ro(&self, name: &str) -> bool {
+        for (sc, ro) in self.scopes.iter().zip(self.ro.iter()).rev() {
+            if ro.iter().any(|n| n == name) {
+                return true;
+            }
+            if sc.iter().any(|(n, _)| n == name) {
+                return false;
+            }
+        }
+        false
+    }
+
+    /// the `&mut` place a scrutinee names (`x` / `*x` for an alias `x`)
+    pub fn alias_scrutinee(&self, e: &syn::Expr) -> Option<Place> {
+        let mut scr: &syn::Expr = e;
+        loop {
+            match scr {
+                syn::Expr::Paren(p) => scr = &p.expr,
+                syn::Expr::Group(p) => scr = &p.expr,
+                syn::Expr::Unary(u) if matches!(u.op, syn::UnOp::Deref(_)) => scr = &u.expr,
+                _ => break,
+            }
+        }
+        if let syn::Expr::Path(p) = scr {
+            if p.qself.is_none() && p.path.segments.len() == 1 {
+                return self.alias_of(&p.path.segments[0].ident.to_string());
             }
         }
         None
@@ -292,7 +331,7 @@ impl<'g> Cx<'g> {
         match p {
             Place::Var(n, _) => Some(roots.get(n).cloned().unwrap_or_else(|| lean_ident(n))),
             Place::Field(b, f, _) => Some(format!("{}.{}", self.pure_read(b, roots)?, lean_ident(f))),
-            Place::Index(_, _, _, _) | Place::MapEntry(_, _, _, _) => None,
+            Place::Index(_, _, _, _) | Place::MapEntry(_, _, _, _) | Place::VariantField(_, _, _, _, _, _) => None,
         }
     }
 
@@ -313,6 +352,10 @@ impl<'g> Cx<'g> {
             },
             Place::MapEntry(b, k, _, _) => match self.pure_read(b, roots) {
                 Some(bt) => self.pure_update(b, format!("(RustSem.Map.insert {} {} {})", bt, k, v), roots),
+                None => false,
+            },
+            Place::VariantField(b, en, vn, f, _, _) => match self.pure_read(b, roots) {
+                Some(bt) => self.pure_update(b, format!("({}.{}.set_{} {} {})", en, lean_ident(vn), f, bt, v), roots),
                 None => false,
             },
         }
@@ -425,10 +468,13 @@ impl<'g> Cx<'g> {
         self.scopes.push(binds.to_vec());
         let pa = std::mem::take(&mut self.pending_aliases);
         self.aliases.push(pa);
+        let pr = std::mem::take(&mut self.pending_ro);
+        self.ro.push(pr);
         let saved_globs = self.glob_enums.len();
         let r = self.items_inner(items, tail, span);
         self.glob_enums.truncate(saved_globs);
         self.aliases.pop();
+        self.ro.pop();
         self.scopes.pop();
         r
     }
@@ -440,6 +486,11 @@ impl<'g> Cx<'g> {
         for (idx, st) in items.iter().enumerate() {
             let last = idx + 1 == n;
             match st {
+                syn::Stmt::Local(l) if l.init.as_ref().map(|i| i.diverge.is_some()).unwrap_or(false) => {
+                    // `let PAT = e else { diverge };  rest…`  ≡  `match e { PAT => rest…, _ => diverge }`
+                    let d = self.let_else(l, &items[idx + 1..], tail, span, &mut stmts)?;
+                    return Ok((Doc::seq(stmts, d.0), d.1, d.2));
+                }
                 syn::Stmt::Local(l) => self.local(l, &mut stmts)?,
                 syn::Stmt::Item(syn::Item::Use(u)) => self.use_item(u)?,
                 syn::Stmt::Item(syn::Item::Const(c)) => {
@@ -536,6 +587,116 @@ impl<'g> Cx<'g> {
                 self.items(&items, tail, binds, e.span())
             }
         }
+    }
+
+    /// aliases for the fields of a struct-variant pattern matched against a place (`&mut` binding mode)
+    fn variant_aliases(&mut self, base: &Place, p: &syn::Pat, site: String) -> R<(String, Vec<(String, Place)>)> {
+        let ps = match p {
+            syn::Pat::Struct(ps) => ps,
+            o => return self.bail(o.span(), "only struct-variant patterns can bind `&mut` references into a place"),
+        };
+        let (en, v) = match self.resolve_variant(&ps.path) {
+            Some(x) => x,
+            None => return self.bail(p.span(), "unsupported pattern"),
+        };
+        match base.ty() {
+            Ty::Named(n) if n == en => {}
+            _ => return self.bail(p.span(), "pattern does not match the type of the place"),
+        }
+        let info = self.g.enums.get(&en).unwrap().variants.iter().find(|x| x.name == v).unwrap().clone();
+        let lean_en = super::lean_type_name(self.g, &self.ns, &en);
+        let mut aliases = Vec::new();
+        for fp in &ps.fields {
+            let fname = match &fp.member {
+                syn::Member::Named(id) => id.to_string(),
+                _ => return self.bail(fp.span(), "unsupported field pattern"),
+            };
+            let fty = match info.fields.iter().find(|(n, _)| n.as_deref() == Some(fname.as_str())) {
+                Some((_, t)) => t.clone(),
+                None => return self.bail(fp.span(), "unknown field"),
+            };
+            let var = match &*fp.pat {
+                syn::Pat::Ident(pi) if pi.subpat.is_none() => pi.ident.to_string(),
+                o => return self.bail(o.span(), "only plain variable bindings are supported in a `&mut` variant pattern"),
+            };
+            self.check_local_name(&var, fp.span())?;
+            aliases.push((var, Place::VariantField(Box::new(base.clone()), lean_en.clone(), v.clone(), fname, fty, site.clone())));
+        }
+        Ok((format!("{} ..", self.variant_lean(&en, &v)), aliases))
+    }
+
+    /// `let PAT = init else { diverging };` followed by `rest`
+    fn let_else(
+        &mut self,
+        l: &syn::Local,
+        rest: &[syn::Stmt],
+        tail: &Tail,
+        span: proc_macro2::Span,
+        stmts: &mut Vec<Stmt>,
+    ) -> R<(Doc, Ty, bool)> {
+        let init = l.init.as_ref().unwrap();
+        let else_expr = &init.diverge.as_ref().unwrap().1;
+        let pat: &syn::Pat = match &l.pat {
+            syn::Pat::Type(pt) => &pt.pat,
+            p => p,
+        };
+        let else_doc = |cx: &mut Cx| -> R<Doc> {
+            let (d, _, div) = cx.arm_doc(else_expr, tail, &[])?;
+            if !div {
+                return cx.bail(else_expr.span(), "the `else` block of `let … else` must diverge");
+            }
+            Ok(d)
+        };
+        // `let Some(x) = map.get_mut(&k) else { … }` : `x` is an alias of the entry
+        if let syn::Expr::MethodCall(gm) = &*init.expr {
+            if gm.method == "get_mut" && gm.args.len() == 1 {
+                if let syn::Pat::TupleStruct(ts) = pat {
+                    if ts.path.is_ident("Some") && ts.elems.len() == 1 {
+                        if let syn::Pat::Ident(pi) = &ts.elems[0] {
+                            let name = pi.ident.to_string();
+                            self.check_local_name(&name, pat.span())?;
+                            let base = self.place(&gm.receiver, stmts)?;
+                            let (kt, vt) = match base.ty() {
+                                Ty::Map(k, v, _) => (*k, *v),
+                                _ => return self.bail(gm.receiver.span(), "`get_mut` on a value that is not a map"),
+                            };
+                            let (k, _) = self.expr(&gm.args[0], Some(&kt), stmts)?;
+                            let cur = self.read(&base, stmts)?;
+                            let site = self.site(&*init.expr);
+                            let ed = else_doc(self)?;
+                            self.pending_aliases.push((name.clone(), Place::MapEntry(Box::new(base), k.clone(), vt.clone(), site)));
+                            let (rd, ty, div) = self.items(rest, tail, &[(name, vt)], span)?;
+                            return Ok((Doc::If(format!("RustSem.Map.contains_key {} {}", cur, k), Box::new(rd), Box::new(ed)), ty, div));
+                        }
+                    }
+                }
+            }
+        }
+        // scrutinee is a `&mut` binding: a struct-variant pattern binds references into it
+        if let Some(base) = self.alias_scrutinee(&init.expr) {
+            if matches!(pat, syn::Pat::Struct(_)) {
+                let site = self.site(&*init.expr);
+                let val = self.read(&base, stmts)?;
+                let (lp, aliases) = self.variant_aliases(&base, pat, site)?;
+                let ed = else_doc(self)?;
+                let binds: Vec<(String, Ty)> = aliases.iter().map(|(n, p)| (n.clone(), p.ty())).collect();
+                self.pending_aliases.extend(aliases);
+                let (rd, ty, div) = self.items(rest, tail, &binds, span)?;
+                return Ok((Doc::Match(val, vec![(lp, rd), ("_".into(), ed)]), ty, div));
+            }
+        }
+        // by-value pattern
+        let (v, vt) = self.expr(&init.expr, None, stmts)?;
+        let (lp, binds) = self.pat(pat, &vt)?;
+        for (n, _) in &binds {
+            self.check_local_name(n, pat.span())?;
+        }
+        let ed = else_doc(self)?;
+        if self.alias_scrutinee(&init.expr).is_some() {
+            self.pending_ro.extend(binds.iter().map(|(n, _)| n.clone()));
+        }
+        let (rd, ty, div) = self.items(rest, tail, &binds, span)?;
+        Ok((Doc::Match(v, vec![(lp, rd), ("_".into(), ed)]), ty, div))
     }
 
     fn use_item(&mut self, u: &syn::ItemUse) -> R<()> {
@@ -758,17 +919,9 @@ impl<'g> Cx<'g> {
                 self.while_loop(w, stmts)?;
                 Ok(None)
             }
-            syn::Expr::Continue(c) if c.label.is_none() => match self.loop_stack.last() {
-                Some(m) => Ok(Some(Doc::atom(format!("Exec.ret (RustSem.LoopExit.cont {})", Self::tuple_val(m))))),
-                None => self.bail(e.span(), "`continue` outside a `while` loop (not supported in `for`)"),
-            },
-            syn::Expr::Break(b) if b.label.is_none() && b.expr.is_none() => match self.loop_stack.last() {
-                Some(m) => Ok(Some(Doc::atom(format!("Exec.ret (RustSem.LoopExit.brk {})", Self::tuple_val(m))))),
-                None => self.bail(e.span(), "`break` outside a `while` loop (not supported in `for`)"),
-            },
-            syn::Expr::Loop(_) | syn::Expr::Break(_) | syn::Expr::Continue(_) => {
-                self.bail(e.span(), "`loop`, labelled or valued `break` / `continue` are not supported")
-            }
+            syn::Expr::Continue(c) => Ok(Some(self.loop_jump("cont", &c.label, e.span())?)),
+            syn::Expr::Break(b) if b.expr.is_none() => Ok(Some(self.loop_jump("brk", &b.label, e.span())?)),
+            syn::Expr::Loop(_) | syn::Expr::Break(_) => self.bail(e.span(), "`loop` and valued `break` are not supported"),
             _ => {
                 let (v, _) = self.expr(e, None, stmts)?;
                 if v != "()" {
@@ -777,6 +930,31 @@ impl<'g> Cx<'g> {
                 Ok(None)
             }
         }
+    }
+
+    /// `continue` / `break`, possibly labelled: leaves through the early-exit channel of the enclosing loop bodies
+    fn loop_jump(&mut self, kind: &str, label: &Option<syn::Lifetime>, span: proc_macro2::Span) -> R<Doc> {
+        let depth = match label {
+            None => {
+                if self.loop_stack.is_empty() {
+                    return self.bail(span, "`break` / `continue` outside a loop");
+                }
+                0
+            }
+            Some(l) => {
+                let name = l.ident.to_string();
+                match self.loop_stack.iter().rev().position(|(lb, _)| lb.as_deref() == Some(name.as_str())) {
+                    Some(d) => d,
+                    None => return self.bail(span, format!("unknown loop label `'{}`", name)),
+                }
+            }
+        };
+        let m = self.loop_stack[self.loop_stack.len() - 1 - depth].1.clone();
+        let mut p = format!("(RustSem.LoopExit.{} {})", kind, Self::tuple_val(&m));
+        for _ in 0..depth {
+            p = format!("(RustSem.LoopExit.ret {})", p);
+        }
+        Ok(Doc::atom(format!("Exec.ret {}", p)))
     }
 
     fn note_dirty(&mut self, m: &[String]) {
@@ -838,6 +1016,9 @@ impl<'g> Cx<'g> {
         if let syn::Expr::Let(l) = &*i.cond {
             let (scrut, st) = self.expr(&l.expr, None, stmts)?;
             let (p, binds) = self.pat(&l.pat, &st)?;
+            if self.alias_scrutinee(&l.expr).is_some() {
+                self.pending_ro.extend(binds.iter().map(|(n, _)| n.clone()));
+            }
             let (dt, tt, div_t) = self.block(&i.then_branch, tail, &binds)?;
             let (de, te, _) = else_doc(self, if div_t { None } else { Some(tt.clone()) })?;
             let ty = if div_t { te } else { tt };
@@ -858,11 +1039,27 @@ impl<'g> Cx<'g> {
         let mut arms = Vec::new();
         let mut ty = Ty::Unknown;
         let mut tail = tail.clone();
+        let base = self.alias_scrutinee(&m.expr);
         for arm in &m.arms {
             if arm.guard.is_some() {
                 return self.bail(arm.span(), "match guards are not supported");
             }
-            let (p, binds) = self.pat(&arm.pat, &st)?;
+            let (p, binds) = match (&base, &arm.pat) {
+                // the scrutinee is a `&mut` place: a struct-variant pattern binds references to its fields
+                (Some(b), syn::Pat::Struct(_)) => {
+                    let site = self.site(&*m.expr);
+                    let (lp, aliases) = self.variant_aliases(b, &arm.pat, site)?;
+                    let binds: Vec<(String, Ty)> = aliases.iter().map(|(n, p)| (n.clone(), p.ty())).collect();
+                    self.pending_aliases.extend(aliases);
+                    (lp, binds)
+                }
+                (Some(_), _) => {
+                    let (p, binds) = self.pat(&arm.pat, &st)?;
+                    self.pending_ro.extend(binds.iter().map(|(n, _)| n.clone()));
+                    (p, binds)
+                }
+                (None, _) => self.pat(&arm.pat, &st)?,
+            };
             let (d, t, div) = self.arm_doc(&arm.body, &tail, &binds)?;
             if !div && matches!(ty, Ty::Unknown) {
                 ty = t.clone();
@@ -877,10 +1074,7 @@ impl<'g> Cx<'g> {
 
     /// `while cond { body }` with manifest fuel
     fn while_loop(&mut self, w: &syn::ExprWhile, stmts: &mut Vec<Stmt>) -> R<()> {
-        if w.label.is_some() {
-            return self.bail(w.span(), "labelled loops are not supported");
-        }
-
+        let label = w.label.as_ref().map(|l| l.name.ident.to_string());
         let fuel_src = match self.fuels.get(self.fuel_next) {
             Some(f) => f.clone(),
             None => {
@@ -903,7 +1097,7 @@ impl<'g> Cx<'g> {
             return self.bail(w.span(), "fuel expression is not an integer");
         }
         let site = format!("\"{}:{}: fuel exhausted\"", self.file, self.fn_disp);
-        self.loop_stack.push(m.clone());
+        self.loop_stack.push((label, m.clone()));
         let r = (|| -> R<Doc> {
             let mut cs: Vec<Stmt> = Vec::new();
             let brk = Doc::atom(format!("Exec.ret (RustSem.LoopExit.brk {})", Self::tuple_val(&m)));
@@ -911,6 +1105,9 @@ impl<'g> Cx<'g> {
                 // `while let PAT = scrutinee { body }`: the scrutinee is evaluated at the start of every round
                 let (scrut, st) = self.expr(&l.expr, None, &mut cs)?;
                 let (p, binds) = self.pat(&l.pat, &st)?;
+                if self.alias_scrutinee(&l.expr).is_some() {
+                    self.pending_ro.extend(binds.iter().map(|(n, _)| n.clone()));
+                }
                 let (body, _, _) = self.block(&w.body, &Tail::Unit(m.clone()), &binds)?;
                 return Ok(Doc::seq(cs, Doc::Match(scrut, vec![(p, body), ("_".into(), brk)])));
             }
@@ -935,16 +1132,40 @@ impl<'g> Cx<'g> {
         Ok(())
     }
 
+    /// body of a `for` loop; `exit`: the body contains `break` / `continue` for this loop
+    fn loop_body(&mut self, body: &syn::Block, exit: bool, label: &Option<String>, m: &[String], binds: &[(String, Ty)]) -> R<Doc> {
+        if exit {
+            self.loop_stack.push((label.clone(), m.to_vec()));
+        }
+        let r = self.block(body, &Tail::Unit(m.to_vec()), binds);
+        if exit {
+            self.loop_stack.pop();
+        }
+        Ok(r?.0)
+    }
+
+    /// `for x in place.iter_mut()`, `for (i, x) in place.iter_mut().enumerate()`, `for (&k, v) in map.iter_mut()`:
+    /// a loop over the positions; `x` / `v` stands for the place `place[i]` / the value of the `i`-th binding
     fn for_iter_mut(&mut self, f: &syn::ExprForLoop, recv: &syn::Expr, enumerated: bool, stmts: &mut Vec<Stmt>) -> R<()> {
+        let label = f.label.as_ref().map(|l| l.name.ident.to_string());
+        let exit = super::analysis::loop_has_jumps(&f.body, label.as_deref());
         let pl = self.place(recv, stmts)?;
-        let et = match pl.ty() {
-            Ty::List(e, _) => *e,
-            _ => return self.bail(recv.span(), "`iter_mut()` on a value that is not an array / Vec / slice"),
+        let (et, map_kv) = match pl.ty() {
+            Ty::List(e, _) => (*e, None),
+            Ty::Map(k, v, false) => (Ty::Tuple(vec![(*k).clone(), (*v).clone()]), Some((*k, *v))),
+            Ty::Map(_, _, true) => {
+                return self.bail(
+                    recv.span(),
+                    "iteration over a `HashMap` is rejected: the model is key-sorted and the iteration order of a HashMap is unspecified",
+                )
+            }
+            _ => return self.bail(recv.span(), "`iter_mut()` on a value that is not an array / Vec / slice / BTreeMap"),
         };
         // loop variables
-        let (ivar, xvar): (Option<String>, String) = match (&*f.pat, enumerated) {
-            (syn::Pat::Ident(pi), false) if pi.subpat.is_none() => (None, pi.ident.to_string()),
-            (syn::Pat::Tuple(t), true) if t.elems.len() == 2 => {
+        let mut kvar: Option<String> = None;
+        let (ivar, xvar): (Option<String>, String) = match (&*f.pat, enumerated, map_kv.is_some()) {
+            (syn::Pat::Ident(pi), false, false) if pi.subpat.is_none() => (None, pi.ident.to_string()),
+            (syn::Pat::Tuple(t), true, false) if t.elems.len() == 2 => {
                 let i = match &t.elems[0] {
                     syn::Pat::Ident(pi) if pi.subpat.is_none() => Some(pi.ident.to_string()),
                     syn::Pat::Wild(_) => None,
@@ -956,9 +1177,28 @@ impl<'g> Cx<'g> {
                 };
                 (i, x)
             }
-            (o, _) => return self.bail(o.span(), "unsupported loop pattern for `iter_mut()`"),
+            (syn::Pat::Tuple(t), false, true) if t.elems.len() == 2 => {
+                let mut kp = &t.elems[0];
+                if let syn::Pat::Reference(r) = kp {
+                    kp = &r.pat;
+                }
+                match kp {
+                    syn::Pat::Ident(pi) if pi.subpat.is_none() => kvar = Some(pi.ident.to_string()),
+                    syn::Pat::Wild(_) => {}
+                    o => return self.bail(o.span(), "unsupported loop pattern"),
+                }
+                let x = match &t.elems[1] {
+                    syn::Pat::Ident(pi) if pi.subpat.is_none() => pi.ident.to_string(),
+                    o => return self.bail(o.span(), "unsupported loop pattern"),
+                };
+                (None, x)
+            }
+            (o, _, _) => return self.bail(o.span(), "unsupported loop pattern for `iter_mut()`"),
         };
         self.check_local_name(&xvar, f.pat.span())?;
+        if let Some(k) = &kvar {
+            self.check_local_name(k, f.pat.span())?;
+        }
         let ivar = match ivar {
             Some(i) => {
                 self.check_local_name(&i, f.pat.span())?;
@@ -970,6 +1210,9 @@ impl<'g> Cx<'g> {
             }
         };
         let mut bound: Vec<String> = vec![ivar.clone(), xvar.clone()];
+        if let Some(k) = &kvar {
+            bound.push(k.clone());
+        }
         bound.dedup();
         let mut m = self.assigned_in_block(&f.body, &bound);
         let root = pl.root();
@@ -980,15 +1223,34 @@ impl<'g> Cx<'g> {
         let cur = self.read(&pl, stmts)?;
         let hi = format!("(RustSem.len {})", cur);
         let site = format!("\"{}:{}: {}\"", self.file, self.fn_disp, self.src(f.expr.span(), String::new()));
-        let alias = Place::Index(Box::new(pl), lean_ident(&ivar), et.clone(), site);
-        self.pending_aliases.push((xvar.clone(), alias));
-        let binds = vec![(ivar.clone(), Ty::usize()), (xvar.clone(), et)];
-        let (body, _, _) = self.block(&f.body, &Tail::Unit(m.clone()), &binds)?;
+        let at = Place::Index(Box::new(pl.clone()), lean_ident(&ivar), et.clone(), site.clone());
+        let mut binds = vec![(ivar.clone(), Ty::usize())];
+        let mut pre: Vec<Stmt> = Vec::new();
+        match &map_kv {
+            None => {
+                self.pending_aliases.push((xvar.clone(), at));
+                binds.push((xvar.clone(), et));
+            }
+            Some((kt, vt)) => {
+                // the key of the `i`-th binding is read at the start of the round; the value is a place
+                if let Some(k) = &kvar {
+                    let curm = self.read(&pl, &mut pre)?;
+                    let t = self.fresh();
+                    pre.push(Stmt::Bind(t.clone(), Doc::atom(format!("RustSem.index {} {} {}", curm, lean_ident(&ivar), site))));
+                    pre.push(Stmt::Let(lean_ident(k), format!("{}.1", t)));
+                    binds.push((k.clone(), kt.clone()));
+                }
+                self.pending_aliases.push((xvar.clone(), Place::Field(Box::new(at), "2".into(), vt.clone())));
+                binds.push((xvar.clone(), vt.clone()));
+            }
+        }
+        let body = self.loop_body(&f.body, exit, &label, &m, &binds)?;
+        let body = Doc::seq(pre, body);
         self.note_dirty(&m);
         stmts.push(Stmt::Bind(
             Self::tuple_pat(&m),
             Doc::Lam(
-                format!("RustSem.forRange 0 {} {}", hi, Self::tuple_val(&m)),
+                format!("RustSem.forRange{} 0 {} {}", if exit { "Exit" } else { "" }, hi, Self::tuple_val(&m)),
                 format!("fun {} {}", lean_ident(&ivar), Self::tuple_pat(&m)),
                 Box::new(body),
             ),
@@ -997,12 +1259,9 @@ impl<'g> Cx<'g> {
     }
 
     fn for_loop(&mut self, f: &syn::ExprForLoop, stmts: &mut Vec<Stmt>) -> R<()> {
-        if !self.loop_stack.is_empty() {
-            // a `for` nested in a `while`: `return` inside is fine (passes through), `continue`/`break` are rejected below
-        }
-        if f.label.is_some() {
-            return self.bail(f.span(), "labelled loops are not supported");
-        }
+        let label = f.label.as_ref().map(|l| l.name.ident.to_string());
+        // a body with `break` / `continue` for this loop leaves through `LoopExit` (as `while` bodies do)
+        let exit = super::analysis::loop_has_jumps(&f.body, label.as_deref());
         let (var, var_span) = match &*f.pat {
             syn::Pat::Ident(pi) if pi.subpat.is_none() && pi.by_ref.is_none() => (pi.ident.to_string(), pi.span()),
             syn::Pat::Wild(w) => ("_".to_string(), w.span()),
@@ -1015,21 +1274,6 @@ impl<'g> Cx<'g> {
         let mut bound: Vec<String> = Vec::new();
         super::analysis::pat_idents(&f.pat, &mut bound);
         let m = self.assigned_in_block(&f.body, &bound);
-        struct HasBreak(bool);
-        impl<'ast> Visit<'ast> for HasBreak {
-            fn visit_expr_break(&mut self, _: &'ast syn::ExprBreak) {
-                self.0 = true;
-            }
-            fn visit_expr_continue(&mut self, _: &'ast syn::ExprContinue) {
-                self.0 = true;
-            }
-            fn visit_expr_while(&mut self, _: &'ast syn::ExprWhile) {}
-        }
-        let mut hb = HasBreak(false);
-        hb.visit_block(&f.body);
-        if hb.0 {
-            return self.bail(f.span(), "`break` / `continue` are not supported");
-        }
         let init = Self::tuple_val(&m);
         let lam_pat = Self::tuple_pat(&m);
         match &*f.expr {
@@ -1052,12 +1296,12 @@ impl<'g> Cx<'g> {
                     _ => return self.bail(r.span(), "`for` range bounds are not integers"),
                 };
                 let binds = if var == "_" { vec![] } else { vec![(var.clone(), vt)] };
-                let (body, _, _) = self.block(&f.body, &Tail::Unit(m.clone()), &binds)?;
+                let body = self.loop_body(&f.body, exit, &label, &m, &binds)?;
                 self.note_dirty(&m);
                 let lv = if var == "_" { "_".to_string() } else { lean_ident(&var) };
                 stmts.push(Stmt::Bind(
                     Self::tuple_pat(&m),
-                    Doc::Lam(format!("RustSem.forRange {} {} {}", lo, hi, init), format!("fun {} {}", lv, lam_pat), Box::new(body)),
+                    Doc::Lam(format!("RustSem.forRange{} {} {} {}", if exit { "Exit" } else { "" }, lo, hi, init), format!("fun {} {}", lv, lam_pat), Box::new(body)),
                 ));
                 Ok(())
             }
@@ -1115,11 +1359,11 @@ impl<'g> Cx<'g> {
                 } else {
                     (lean_ident(&var), vec![(var.clone(), et)])
                 };
-                let (body, _, _) = self.block(&f.body, &Tail::Unit(m.clone()), &binds)?;
+                let body = self.loop_body(&f.body, exit, &label, &m, &binds)?;
                 self.note_dirty(&m);
                 stmts.push(Stmt::Bind(
                     Self::tuple_pat(&m),
-                    Doc::Lam(format!("RustSem.forEach {} {}", l, init), format!("fun {} {}", lv, lam_pat), Box::new(body)),
+                    Doc::Lam(format!("RustSem.forEach{} {} {}", if exit { "Exit" } else { "" }, l, init), format!("fun {} {}", lv, lam_pat), Box::new(body)),
                 ));
                 Ok(())
             }
@@ -1137,6 +1381,12 @@ impl<'g> Cx<'g> {
                 let n = p.path.segments[0].ident.to_string();
                 if let Some(pl) = self.alias_of(&n) {
                     return Ok(pl);
+                }
+                if self.is_ro(&n) {
+                    return self.bail(
+                        e.span(),
+                        format!("`{}` is bound by a pattern to a part of a `&mut` place: assignment through it is only supported for struct-variant patterns", n),
+                    );
                 }
                 match self.lookup(&n) {
                     Some(t) => Ok(Place::Var(n, t)),
@@ -1221,6 +1471,12 @@ impl<'g> Cx<'g> {
                 stmts.push(Stmt::Bind(t.clone(), Doc::atom(format!("RustSem.Map.index {} {} {}", bt, k, site))));
                 Ok(t)
             }
+            Place::VariantField(b, en, vn, f, _, site) => {
+                let bt = self.read(b, stmts)?;
+                let t = self.fresh();
+                stmts.push(Stmt::Bind(t.clone(), Doc::atom(format!("RustSem.unwrap ({}.{}.{}? {}) {}", en, lean_ident(vn), f, bt, site))));
+                Ok(t)
+            }
         }
     }
 
@@ -1238,6 +1494,17 @@ impl<'g> Cx<'g> {
             }
             Place::Field(b, f, _) => {
                 let bt = self.read(b, stmts)?;
+                if let Ty::Tuple(ts) = b.ty() {
+                    // component of a pair
+                    let nv = match (ts.len(), f.as_str()) {
+                        (2, "1") => format!("({}, {}.2)", v, bt),
+                        (2, "2") => format!("({}.1, {})", bt, v),
+                        _ => {
+                            return Err(TErr { file: self.file.clone(), line: 0, msg: "assignment to a component of a tuple that is not a pair".into(), missing: None })
+                        }
+                    };
+                    return self.write(b, nv, stmts);
+                }
                 self.write(b, format!("{{ {} with {} := {} }}", bt, lean_ident(f), v), stmts)
             }
             Place::Index(b, i, _, site) => {
@@ -1249,6 +1516,10 @@ impl<'g> Cx<'g> {
             Place::MapEntry(b, k, _, _) => {
                 let bt = self.read(b, stmts)?;
                 self.write(b, format!("(RustSem.Map.insert {} {} {})", bt, k, v), stmts)
+            }
+            Place::VariantField(b, en, vn, f, _, _) => {
+                let bt = self.read(b, stmts)?;
+                self.write(b, format!("({}.{}.set_{} {} {})", en, lean_ident(vn), f, bt, v), stmts)
             }
         }
     }
